@@ -80,7 +80,7 @@ func (s *Snapshot) Aggregate(similar Similarity) *Aggregated {
 	sort.SliceStable(bs, func(i, j int) bool {
 		l := bs[i]
 		r := bs[j]
-		if l.First || r.First {
+		if l.First != r.First {
 			return l.First
 		}
 		if l.Signature.less(&r.Signature) {
